@@ -53,3 +53,40 @@ func VerifC13PoolSnapshot() []*ReceiveContext {
 	}
 	return out
 }
+
+// VerifC13PoolKeepLast empties the global context pool and puts back only the n most recently recycled
+// contexts (what a busy system with a full pool does anyway: older ones are dropped for the GC). The next
+// Tells therefore reuse exactly the contexts the previous deliveries used, so state that a recycled context
+// wrongly keeps (anything reset() forgets) shows up at once instead of after thousands of messages.
+func VerifC13PoolKeepLast(n int) {
+	all := VerifC13PoolSnapshotDrain()
+	if n < 0 { // -k: drop only the k oldest
+		k := -n
+		if k > len(all) {
+			k = len(all)
+		}
+		all = all[k:]
+	} else if len(all) > n {
+		all = all[len(all)-n:]
+	}
+	for _, c := range all {
+		select {
+		case contextCh <- c:
+		default:
+		}
+	}
+}
+
+// VerifC13PoolSnapshotDrain takes every free context out of the pool (oldest first).
+func VerifC13PoolSnapshotDrain() []*ReceiveContext {
+	var out []*ReceiveContext
+	for {
+		select {
+		case c := <-contextCh:
+			out = append(out, c)
+			continue
+		default:
+		}
+		return out
+	}
+}
